@@ -126,7 +126,7 @@ class CompiledExpression:
         used_variables -= set(self._Variables)
         used_variables -= {pymbolic.var(key) for key in list(ctx.keys())}
         used_variables = list(used_variables)
-        used_variables.sort()
+        used_variables.sort(key=lambda v: v.name)
         all_variables = self._Variables + used_variables
 
         expr_s = CompileMapper()(self._Expression, PREC_NONE)
